@@ -72,7 +72,14 @@ def calibrate_seq(qt, spec, parts, prev=None):
 
 def run_case(ctx, case, rng):
   n_sub = 1 if rng.random() < 0.75 else int(rng.integers(2, 4))
-  spec = models.model_for_case(rng, multi_sub_p=0.0) if n_sub == 1 else models.rand_model(rng, n_sub=n_sub)
+  tied = None
+  if case % 8 == 5:
+    # one constant TENSOR read by several operators that get different weight granularities
+    from vf.props import c15
+    n_sub = 1
+    spec, tied = c15.build(rng, 'same_tensor' if rng.random() < 0.7 else 'tied_embedding', int(rng.integers(2, 4)))
+  else:
+    spec = models.model_for_case(rng, multi_sub_p=0.0) if n_sub == 1 else models.rand_model(rng, n_sub=n_sub)
   n = int(rng.integers(1, 7))
   classes = gdata.DATA_CLASSES if rng.random() < 0.5 else ('normal', 'scaled')
   datasets = {s['key']: gdata.dataset(rng, s, n, classes) for s in spec.signatures}
@@ -80,7 +87,12 @@ def run_case(ctx, case, rng):
   if not ok:
     return {'outcome': 'skipped', 'reason': 'generator_reject'}
   src = models.read(spec.content)
-  if case % 3 == 0:
+  if tied is not None:
+    import re
+    rules = [('.*', '*', 'srq8a_cw')] + [(re.escape(out), sel, str(rng.choice(['srq8a_cw', 'srq8a_tw', 'srq8s_cw', 'srq16_tw', 'drq8_tw', 'drq8_cw'])))
+                                          for sel, out in tied]
+    ctx.count('tied_constant_cases')
+  elif case % 3 == 0:
     name = ['default_a8w8_recipe.json', 'default_a16w8_recipe.json'][(case // 3) % 2]
     rules = recipes.SHIPPED_AS_RULES[name]
   else:
